@@ -36,12 +36,22 @@ def ref_cells_in_raster_order(tree):
     return out
 
 
-def check_doc(text, scales=(1, 2, Fraction(3, 2))):
+def check_doc(text, scales=(1, 2, Fraction(3, 2), 1.0, 0.5), descs=None):
     out = []
     try:
         mr = M.compile_markdown(text)
     except Exception:
         return out
+    if descs is not None:
+        # the references the author wrote: the documented by-name meaning of each independent recipe
+        from .. import gen_desc
+        for gi, d in enumerate(descs):
+            try:
+                want = rsexp.c_blocks(gen_desc.meaning(d)[0])
+            except gen_desc.Rejected:
+                continue
+            if gi < len(mr.recipes) and rsexp.c_blocks(mr.recipes[gi]) != want:
+                out.append(("C09:reference-differs-from-what-was-written", "independent recipe %d: compiled references/outputs differ from the description" % gi))
     for k in scales:
         try:
             html = mr.render(k)
@@ -118,15 +128,16 @@ def check_doc(text, scales=(1, 2, Fraction(3, 2))):
 
 
 COLLISION_DOC = "# T for 2\n\n    a b = 1 egg, fried\n    a-b = 2 eggs, boiled\n    mix(1/2 of a b, 1/2 of a-b)\n"
+NUMBERED_NAME_DOC = "# Pies for 2\n\n    filling for {1 1/2} pies = mix(2 apples, sugar)\n    veg, veg water = boil(3 carrots)\n    bake(1/2 of filling for {1 1/2} pies, rest of the filling for {1 1/2} pies, veg water, veg)\n"
 ACCENT_DOC = "# T for 2\n\n    pâte = 1 egg, mixed\n    pâté = 2 livers, cooked\n    crème = 1 cup cream, whipped\n    creme = 2 cups milk, boiled\n    wrap(1/2 of pâte, 1/2 of pâté, 1/2 of crème, 1/2 of creme)\n"
 
 
 def oracle(run):
-    docs = [COLLISION_DOC, ACCENT_DOC] + [d.text() for d in c13.gen_cases(run, run.budget(150, 4000))]
-    for text in docs:
+    docs = [(COLLISION_DOC, None), (ACCENT_DOC, None), (NUMBERED_NAME_DOC, None)] + [(d.text(), d.descs) for d in c13.gen_cases(run, run.budget(150, 4000))]
+    for text, descs in docs:
         run.case(("oracle", text), "rg-reference" in text or True, kind="document")
         seen = set()
-        for sig, detail in check_doc(text):
+        for sig, detail in check_doc(text, descs=descs):
             if sig in seen:
                 continue
             seen.add(sig)
